@@ -12,7 +12,7 @@ import math
 
 import numpy as np
 
-from ..core import import_library
+from ..core import describe, import_library
 from ..gen import engines as E
 from ..probe import Probe, Reach
 
@@ -54,7 +54,7 @@ class ReadyMonitor:
     def _after_ready(self, args, kwargs, token, result, exc):
         ctx, engine = self.ctx, args[0]
         if exc is not None:
-            ctx.violation(f"is_ready raises {type(exc).__name__}", {"engine": str(engine)}, "a verdict", repr(exc)[:200])
+            ctx.violation(f"is_ready raises {type(exc).__name__}", {"engine": describe(engine)}, "a verdict", repr(exc)[:200])
             return
         errors = args[1] if len(args) > 1 and args[1] is not None else kwargs.get("errors")
         if errors is None:
@@ -70,7 +70,7 @@ class ReadyMonitor:
         for component, word in self.needs.get(id(engine), []):
             ctx.hit(f"converse:{word}")
             if not any(word in line and f"'{component}'" in line for line in errors):
-                ctx.violation(f"a missing {word} operator that the rules/outputs need is not reported by is_ready", {"engine": str(engine), "component": component, "errors": list(errors)}, f"an error mentioning the {word} of '{component}'", list(errors))
+                ctx.violation(f"a missing {word} operator that the rules/outputs need is not reported by is_ready", {"engine": describe(engine), "component": component, "errors": list(errors)}, f"an error mentioning the {word} of '{component}'", list(errors))
 
     def _before_process(self, args, kwargs):
         engine = args[0]
@@ -95,9 +95,9 @@ class ReadyMonitor:
             ctx.hit("event:process after ready")
             if exc is not None:
                 what = "operator" if "expected a" in str(exc) else "other"
-                ctx.violation(f"an engine reported ready raises {type(exc).__name__} when processed ({what})", {"engine": str(engine), "inputs": [iv.value for iv in engine.input_variables], "error": repr(exc)[:300]}, "no error", repr(exc)[:300])
+                ctx.violation(f"an engine reported ready raises {type(exc).__name__} when processed ({what})", {"engine": describe(engine), "inputs": [iv.value for iv in engine.input_variables], "error": repr(exc)[:300]}, "no error", repr(exc)[:300])
             else:
-                ctx.nontrivial("ready-processed", str(engine))
+                ctx.nontrivial("ready-processed", describe(engine))
         else:
             ctx.hit(f"event:process after not-ready:{'raised' if exc is not None else 'returned'}")
 
